@@ -338,3 +338,17 @@ def linear_relation(cmp_node: ast.AST):
         if first and d[first[0]] < 0:
             d = {k: -v for k, v in d.items()}
     return op, frozenset(d.items())
+
+
+def substitute(f, mapping: Dict[str, tuple]):
+    """replace atoms by formulas (e.g. the atom `d.get(k) is None` by Not(Atom('present')))"""
+    k = f[0]
+    if k == "atom":
+        return mapping.get(f[1], f)
+    if k == "not":
+        return Not(substitute(f[1], mapping))
+    if k == "and":
+        return And(*[substitute(g, mapping) for g in f[1:]])
+    if k == "or":
+        return Or(*[substitute(g, mapping) for g in f[1:]])
+    return f
